@@ -293,25 +293,36 @@ func TestVerif_C07Worker(t *testing.T) {
 		runtime.MemProfileRate = 1
 		v, d := run(job.Single)
 		site := "unknown"
-		recs := make([]runtime.MemProfileRecord, 4096)
+		runtime.GC() // the profile is as of the last completed collection
+		runtime.GC()
+		recs := make([]runtime.MemProfileRecord, 16384)
 		nrec, _ := runtime.MemProfile(recs, true)
-		var best int64
+		bySite := map[string]int64{}
+		var total int64
 		for _, rec := range recs[:nrec] {
-			if rec.AllocBytes <= best {
-				continue
-			}
 			frames := runtime.CallersFrames(rec.Stack())
 			for {
 				fr, more := frames.Next()
 				if strings.HasPrefix(fr.Function, "github.com/scigolib/hdf5") && !strings.Contains(fr.Function, ".vf") && !strings.Contains(fr.Function, "Verif") && !strings.Contains(fr.Function, "/verif/") {
-					best = rec.AllocBytes
-					site = strings.TrimPrefix(fr.Function, "github.com/scigolib/hdf5/")
+					bySite[strings.TrimPrefix(fr.Function, "github.com/scigolib/hdf5/")] += rec.AllocBytes
+					total += rec.AllocBytes
 					break
 				}
 				if !more {
 					break
 				}
 			}
+		}
+		var best int64
+		for k, b := range bySite {
+			if b > best || (b == best && k < site) {
+				best, site = b, k
+			}
+		}
+		// one site responsible for most of the bytes = a single size-driven allocation;
+		// otherwise the budget was exceeded by many small allocations (a long traversal)
+		if total == 0 || best*2 < total {
+			site = "many-small-allocations"
 		}
 		fmt.Fprintf(out, "S %d %s %s site=%s\n", job.Single, v, d, site)
 		return
@@ -423,8 +434,12 @@ func TestVerif_C07(t *testing.T) {
 			// keyed by the API stage that allocated most (deterministic); the allocating
 			// function from a profiled single run goes into the artefact only
 			stage := strings.SplitN(detail, "|", 2)[0]
-			d["allocating_site_from_profile"] = vfC07Single(dir, fj.path, fj.base.name, idx, budget, r.Thorough())
-			r.Fail("alloc-over-budget/"+kind+"@"+stage, d)
+			site := vfC07Single(dir, fj.path, fj.base.name, idx, budget, r.Thorough())
+			d["allocating_site_from_profile"] = site
+			// keyed by base file and API stage (both deterministic); the profiled site is
+			// informative only (attribution by profile is not stable enough for a key)
+			_ = kind
+			r.Fail("alloc-over-budget/"+fj.base.name+"@"+stage, d)
 		case "fatal":
 			r.Fail("fatal("+detail+")/"+kind, d)
 		case "hang":
@@ -456,9 +471,26 @@ func TestVerif_C07(t *testing.T) {
 			}
 			if hung {
 				// confirm alone with a longer limit
-				_, _, fin2, _, hung2 := vfC07RunWorker(dir, vfC07Job{Base: s.fj.base.name, File: s.fj.path, From: last, To: last + 1, Budget: budget, Thorough: r.Thorough(), Scratch: dir, Single: -1}, 60*time.Second)
-				if hung2 && !fin2 {
+				_, res2, fin2, err2, hung2 := vfC07RunWorker(dir, vfC07Job{Base: s.fj.base.name, File: s.fj.path, From: last, To: last + 1, Budget: budget, Thorough: r.Thorough(), Scratch: dir, Single: -1}, 60*time.Second)
+				switch {
+				case hung2 && !fin2:
 					report(s.fj, last, "hang", vfLastRepoFrame(stderrTail))
+				case fin2:
+					// not a hang (the box was busy): the mutant's own verdict counts
+					r.Add("watchdog_false_positives_rechecked", 1)
+					for _, res := range res2 {
+						report(s.fj, res.idx, res.verdict, res.detail)
+					}
+				default:
+					// died when run alone: classify like any other worker death
+					cls := "crash"
+					switch {
+					case strings.Contains(err2, "out of memory") || strings.Contains(err2, "cannot allocate"):
+						cls = "out-of-memory"
+					case strings.Contains(err2, "stack overflow") || strings.Contains(err2, "goroutine stack exceeds"):
+						cls = "stack-overflow"
+					}
+					report(s.fj, last, "fatal", cls+"@"+vfLastRepoFrame(err2))
 				}
 			} else {
 				cls := "crash"
